@@ -57,6 +57,7 @@ type Script struct {
 	Preamble    string          // quantified facts about the pure symbols this script mentions
 	CalledPure  map[string]bool // pure symbols whose contract is already assumed at a call site
 	QuickStride int
+	Tactic      string // "nlsat": obligations are discharged with z3's nonlinear real tactic
 }
 
 func (s *Script) emit(format string, a ...interface{}) {
@@ -98,20 +99,20 @@ type Place struct {
 }
 
 type fctx struct {
-	callRes map[string][]Term // results of the last contract-call of each callee (root context; $result)
-	callBlock *ssa.BasicBlock // inlined helper: the block of the enclosing function that contains the call
-	vc      *VC
-	fn      *ssa.Function
-	con     *Contract
-	sc      *Script
-	pfx     string
-	depth   int
-	vals    map[ssa.Value]Term
-	tuples  map[ssa.Value][]Term
-	places  map[ssa.Value]*Place
-	mapKey  map[ssa.Value]string // MakeMap value -> state key
-	clos    map[ssa.Value]*ssa.MakeClosure
-	ranges  map[ssa.Value]*rangeInfo
+	callRes   map[string][]Term // results of the last contract-call of each callee (root context; $result)
+	callBlock *ssa.BasicBlock   // inlined helper: the block of the enclosing function that contains the call
+	vc        *VC
+	fn        *ssa.Function
+	con       *Contract
+	sc        *Script
+	pfx       string
+	depth     int
+	vals      map[ssa.Value]Term
+	tuples    map[ssa.Value][]Term
+	places    map[ssa.Value]*Place
+	mapKey    map[ssa.Value]string // MakeMap value -> state key
+	clos      map[ssa.Value]*ssa.MakeClosure
+	ranges    map[ssa.Value]*rangeInfo
 
 	reach     map[*ssa.BasicBlock]Term
 	exit      map[*ssa.BasicBlock]*State
@@ -561,6 +562,7 @@ func (vc *VC) TranslateFunction(fn *ssa.Function, con *Contract) (sc *Script, er
 	sc = newScript(name)
 	sc.Con = con
 	sc.QuickStride = con.QuickStride
+	sc.Tactic = con.Tactic
 	sc.Splits = con.Splits
 	sc.Pos = vc.position(fn.Pos())
 	sc.Ideal = con.Float == "ideal"
